@@ -63,6 +63,67 @@ def rpc_histories(c):
     c.sample({'rpc_history': hists[0]})
 
 
+def hosted_histories(c):
+  """The same comparison with the REAL stateful designer policy (PartiallySerializableDesignerPolicy: config check,
+  id-deduplicating trial loader reading trials back through the policy supporter, state dump into the study
+  metadata) hosted around a scripted designer: in the split deployment the policy's own traffic goes through a
+  gRPC stub, in the other two through the servicer object.  Deleted trials leave gaps in the id range."""
+  from vcheck import deploy
+  S = lambda n, base: {'kind': 'ok', 'sugg': [{'params': base + i, 'md': []} for i in range(n)], 'delta': []}
+  b = {'owner': 'o', 'sid': 's'}
+  directed = [
+      {'op': 'createStudy', 'owner': 'o', 'display': 's', 'spec': 1, 'state': 'ACTIVE', 'md': []},
+      dict(b, op='suggest', client='w1', count=3, alg=S(3, 1)),
+      dict(b, op='complete', id=1, final=[1, True], infeasible=False, reason=''),
+      dict(b, op='complete', id=2, final=[2, True], infeasible=False, reason=''),
+      dict(b, op='complete', id=3, final=None, infeasible=True, reason='bad'),
+      dict(b, op='deleteTrial', id=1),
+      dict(b, op='suggest', client='w1', count=2, alg=S(2, 10)),
+      dict(b, op='listTrials'),
+      dict(b, op='deleteTrial', id=5),
+      dict(b, op='suggest', client='w2', count=1, alg=S(1, 20)),
+      dict(b, op='getStudy'), dict(b, op='listTrials')]
+  hists = [directed]
+  weights = {'createStudy': 1, 'getStudy': 1, 'listStudies': 0, 'deleteStudy': 0, 'setStudyState': 1, 'createTrial': 3, 'suggest': 10,
+             'getOperation': 1, 'getTrial': 1, 'listTrials': 2, 'addMeasurement': 1, 'complete': 8, 'stop': 1, 'deleteTrial': 5,
+             'checkEarlyStop': 0, 'updateMetadata': 2, 'listOptimal': 1}
+  for _ in range(3 if c.tier == 'quick' else 30):
+    g = svcgen.Gen(c.rng, owners=('o',), sids=('s',), weights=weights, fail_rate=0.0)
+    hists.append([r for r in g.history(c.rng.randrange(8, 18)) if not (r['op'] == 'suggest' and r['alg'].get('kind') != 'ok')])
+  for hi, h in enumerate(hists):
+    runs = {}
+    for kind in KINDS:
+      d = deploy.Deployment(kind, 'ram' if hi % 2 == 0 else 'sqlmem', hosted=True)
+      try:
+        rr = d.runner()
+        resps, snaps = [], []
+        for rq in h:
+          resps.append(rr.step(rq))
+          snaps.append(rr.snapshot())
+        runs[kind] = (resps, snaps)
+        c.traces += 1
+      finally:
+        d.close()
+    kinds = set(r['op'] for r in h)
+    c.count(len(h), ('c08hosted', hi) if {'suggest', 'deleteTrial'} <= kinds else None, kind='c08-hosted-history')
+    base_resps, base_snaps = runs['local']
+    for kind in ('grpc', 'split'):
+      resps, snaps = runs[kind]
+      for i, rq in enumerate(h):
+        ra, rb = deploy.canon_resp(base_resps[i]), deploy.canon_resp(resps[i])
+        if rq['op'] == 'getOperation':
+          ra = {k: v for k, v in ra.items() if k not in ('handed', 'handed_ids')}
+          rb = {k: v for k, v in rb.items() if k not in ('handed', 'handed_ids')}
+        if ra != rb or base_snaps[i] != snaps[i]:
+          what = 'result / error class' if ra != rb else 'stored data'
+          c.prop_fail('deployments-differ:hosted:%s:%s' % (rq['op'], 'response' if ra != rb else 'state'),
+                      'hosting the real designer policy, the same call sequence gives a different %s through the in-process service and the %s deployment at step %d (%s): local=%s %s=%s' % (
+                          what, kind, i, rq['op'], json.dumps(ra)[:200], kind, json.dumps(rb)[:200]),
+                      {'deployment': kind, 'hosted': True, 'history': h[:i + 1], 'local': {'resp': base_resps[i], 'state': base_snaps[i]},
+                       kind: {'resp': resps[i], 'state': snaps[i]}})
+          break
+
+
 def client_programs(c):
   """Client-level programs (clients.Study / clients.Trial) on the three deployments."""
   from vcheck import deploy
@@ -298,6 +359,7 @@ def run(c):
   c.coverage_extra['error_table'] = facts
   c.proof_stage()
   rpc_histories(c)
+  hosted_histories(c)
   client_programs(c)
   svc.cleanup()
   return c.finish(
